@@ -3,6 +3,8 @@ current working tree and lets monitors judge them; see DESIGN.md section 6."""
 import os, sys, time
 from . import build, run
 
+SPEC = ["spec.c"]      # the independent Vorbis I model, linked into drivers that use model-made streams
+
 TRUST_COMMON = [
     "system libogg 1.3.5 (uninstrumented, static) is correct",
     "the harness's own generators/oracles (/verif/harness) are part of the trusted base",
@@ -21,7 +23,7 @@ def C07(ctx):
                 "single|chain) counted only if the seek succeeded and >=1 sample run was compared bit-exactly with the linear decode")
     ctx.assumptions = TRUST_COMMON + ["reference = linear ov_read_float decode on a fresh handle over the same bytes, itself "
                                       "checked for contiguity (tell == running count, bitstream index monotone, per-link length == samples encoded)"]
-    ctx.run("san", "vfseek", "c07", _n(ctx.tier, 800, 6000))
+    ctx.run("san", "vfseek", "c07", _n(ctx.tier, 800, 6000), extra_src=SPEC)
     return ctx.finish(min_evals=2000, min_buckets=40)
 
 
@@ -33,7 +35,7 @@ def C08(ctx):
                 "or an out-of-range rejection whose position and next read were verified undisturbed")
     ctx.assumptions = TRUST_COMMON + ["t == duration exactly is judged for safety only (statement leaves it open)",
                                       "time seeks: |tell - (link start + floor((t - t_start)*rate))| <= 1"]
-    ctx.run("san", "vfseek", "c08", _n(ctx.tier, 450, 4500), gate=("C08",))
+    ctx.run("san", "vfseek", "c08", _n(ctx.tier, 450, 4500), gate=("C08",), extra_src=SPEC)
     return ctx.finish(min_evals=5000, min_buckets=40)
 
 
@@ -43,7 +45,7 @@ def C09(ctx):
                 "4 paging policies; evaluation = one per-link accounting comparison or one audio comparison of a link in the chain vs the "
                 "same link's bytes opened alone; bucket = (k, has zero-length link, has tiny link, first link short|long) with every clause held")
     ctx.assumptions = TRUST_COMMON + ["intact chains only (damaged chains belong to C03)"]
-    ctx.run("san", "vfmisc", "c09", _n(ctx.tier, 400, 6000))
+    ctx.run("san", "vfmisc", "c09", _n(ctx.tier, 400, 6000), extra_src=SPEC)
     return ctx.finish(min_evals=1000, min_buckets=12)
 
 
@@ -54,7 +56,7 @@ def C10(ctx):
                 "bytes); evaluation = one full alternative decode compared bit-for-bit; bucket = (path, seek mode, schedule, request policy, "
                 "preload, single|chain)")
     ctx.assumptions = TRUST_COMMON
-    ctx.run("san", "vfmisc", "c10", _n(ctx.tier, 240, 3000))
+    ctx.run("san", "vfmisc", "c10", _n(ctx.tier, 240, 3000), extra_src=SPEC)
     return ctx.finish(min_evals=800, min_buckets=30)
 
 
@@ -66,7 +68,7 @@ def C17(ctx):
                 "byte-order arithmetic; bucket = (word, signed, endian, length class, channel class, misaligned) or a rejected bad request")
     ctx.assumptions = TRUST_COMMON + ["decoded values far outside +-1 come from 10x over-range input only until crafted streams are added (thorough: vgen)",
                                       "ties in rounding accept either neighbour"]
-    ctx.run("san", "vfmisc", "c17", _n(ctx.tier, 400, 3000))
+    ctx.run("san", "vfmisc", "c17", _n(ctx.tier, 400, 3000), extra_src=SPEC)
     return ctx.finish(min_evals=3000, min_buckets=40)
 
 
@@ -79,7 +81,7 @@ def C19(ctx):
     ctx.assumptions = TRUST_COMMON + ["content formula asserted only when the old link is unambiguous, old audio is available without leaving its link and "
                                       "the primed buffer holds >= the lap length; bounds, tell and identity after the region always asserted",
                                       "window from the Vorbis I formula, tolerance 4e-6 relative"]
-    ctx.run("san", "vfmisc", "c19", _n(ctx.tier, 120, 2500))
+    ctx.run("san", "vfmisc", "c19", _n(ctx.tier, 120, 2500), extra_src=SPEC)
     return ctx.finish(min_evals=2000, min_buckets=40)
 
 
@@ -88,9 +90,9 @@ def C20(ctx):
                 "of 150 (300) ops toggling ov_halfrate at arbitrary points among reads and pcm/page/time/raw seeks, every read compared "
                 "bit-for-bit with the half-rate (or full-rate) linear decode at the reported position; then a streaming handle toggled before "
                 "the first read; bucket = (count parity/size class) | (toggle direction) | (seek API, hs, target class, single|chain)")
-    ctx.assumptions = TRUST_COMMON + ["refusal on 64-sample short blocks needs crafted streams (vgen) and is covered only where those are generated",
+    ctx.assumptions = TRUST_COMMON + ["refusal on 64-sample short blocks: every 8th case chains a model-made link with 64-sample blocks among encoder-made links and requires OV_EINVAL, flag clear, position/total unchanged and decoding identical to a twin that never asked",
                                       "for odd N the position after the last half-rate sample is N+1; not flagged"]
-    ctx.run("san", "vfmisc", "c20", _n(ctx.tier, 400, 4000))
+    ctx.run("san", "vfmisc", "c20", _n(ctx.tier, 400, 4000), extra_src=SPEC)
     return ctx.finish(min_evals=3000, min_buckets=25)
 
 
@@ -165,7 +167,6 @@ def C16(ctx):
     return ctx.finish(min_evals=20000, min_buckets=20)
 
 
-SPEC = ["spec.c"]
 
 
 def C01(ctx):
